@@ -455,12 +455,48 @@ def req_C04(r, tier):
             out.append(("ed.msm_pre:n=%d" % n, "ed.msm_pre %s %s %s %s" % (lst(st_s), lst(ps[:k]), lst(ss[k:]), lst(ps[k:]))))
             for c in ("serial", "avx2", "ifma"):
                 out.append(("ed.direct.%s.pre" % c, "ed.direct.%s.pre %s %s %s %s" % (c, lst(st_s), lst(ps[:k]), lst(ss[k:]), lst(ps[k:]))))
+    out += exceptional_scalar_mul(r)
     # ladder on arbitrary bit strings
     for i in range(sz(tier, 30, 400)):
         nb = r.choice([0, 1, 2, 7, 64, 255, 256, 300])
         bits = bytes(r.below(2) for _ in range(nb))
         u = r.choice([0, 1, 9, P - 1, r.below(P), r.below(1 << 256)])
         out.append(("mont.mul_bits_be:n=%d" % nb, "mont.mul_bits_be %s %s" % (H(u), hx(bits))))
+    return out
+
+
+def exceptional_scalar_mul(r):
+    """every multi-scalar entry point on algebraically exceptional scalar tuples: ALL combinations of {0, 1, l-1, 8} (so also
+    all-zero tuples, whose recodings have no non-zero digit at all), with ordinary, identity and torsion points"""
+    out = []
+    ex = [0, 1, L - 1, 8]
+    pts = [compress(B).hex(), compress(ZERO).hex(), compress(T8[1]).hex(), compress(add(B, T8[4])).hex()]
+    for a in ex:
+        for b in ex:
+            for p in pts[:3] if (a, b) != (0, 0) else pts:
+                out.append(("ed.double_base:exc", "ed.double_base %s %s %s" % (H(a), p, H(b))))
+                out.append(("ed.double_base_raw:exc", "ed.double_base_raw %s %s %s" % (H(a), p, H(b))))
+                for c in ("serial", "avx2", "ifma"):
+                    out.append(("ed.direct.%s.double_base:exc" % c, "ed.direct.%s.double_base %s %s %s" % (c, H(a), p, H(b))))
+            out.append(("ris.double_base:exc", "ris.double_base %s %s %s" % (H(a), RIS_B, H(b))))
+    for n in (1, 2, 3, 4, 8, 9):
+        for v in ex:
+            ss = [H(v)] * n
+            ps = [pts[i % len(pts)] for i in range(n)]
+            for op in ("ed.msm_vt", "ed.msm_ct", "ed.msm_opt"):
+                out.append(("%s:exc" % op, "%s %s %s" % (op, lst(ss), lst(ps))))
+            for c in ("serial", "avx2", "ifma"):
+                for alg in ("straus_ct", "straus_vt", "pippenger"):
+                    out.append(("ed.direct.%s.%s:exc" % (c, alg), "ed.direct.%s.%s %s %s" % (c, alg, lst(ss), lst(ps))))
+            k = n // 2
+            out.append(("ed.msm_pre:exc", "ed.msm_pre %s %s %s %s" % (lst(ss[:k]), lst(ps[:k]), lst(ss[k:]), lst(ps[k:]))))
+    for v in ex:
+        for p in pts:
+            out.append(("ed.mul_raw:exc", "ed.mul_raw %s %s" % (p, H(v))))
+            out.append(("ed.mul_clamped:exc", "ed.mul_clamped %s %s" % (p, H(v))))
+        out.append(("ed.mul_base:exc", "ed.mul_base " + H(v)))
+        out.append(("ris.mul_base:exc", "ris.mul_base " + H(v)))
+        out.append(("mont.mul_base:exc", "mont.mul_base " + H(v)))
     return out
 
 
@@ -1074,6 +1110,8 @@ def req_C15(r, tier):
     out.append(("eds.batch:empty", "eds.batch - - -"))
     out.append(("eds.batch:garbage", "eds.batch %s %s %s" % (lst(hx(t[1]) for t in tr), lst(r.bytes(64).hex() for t in tr), lst(t[3].hex() for t in tr))))
     out.append(("eds.batch:Snoncanon", "eds.batch %s %s %s" % (lst(hx(t[1]) for t in tr), lst((t[2][:32] + tole((1 << 256) - 1)).hex() for t in tr), lst(t[3].hex() for t in tr))))
+    # scalar multiplications on algebraically exceptional scalar tuples (all-zero recodings etc.)
+    out += exceptional_scalar_mul(r)
     # over-long prehash contexts on the VERIFY side (signing refuses them)
     sd = r.bytes(32)
     for n in (256, 300):
@@ -1128,9 +1166,11 @@ def margin_shape(r):
     (1 <= i, j <= 3), x0, y0 at the top of their range, x4 = -d1 / y0 and y4 = -d2 / x0 mod 2^52"""
     T, M52 = 1 << 51, (1 << 52) - 1
     while True:
-        ex = r.choice([19 * 8192, 19 * 8192, 19 * 33, 19 * 97, 19 * 1024])
-        x0 = (T + ex - 1 - 2 * r.below(200)) | 1
-        y0 = (T + ex - 1 - 2 * r.below(200)) | 1
+        ex = r.choice([19 * 8191, 19 * 8191, 19 * 33, 19 * 97, 19 * 1024])   # 2^51 - 1 + 19 * 8191 is the largest limb 0 a reduce can return
+        x0 = T + ex - 1 - 2 * r.below(200)
+        y0 = T + ex - 1 - 2 * r.below(200)
+        x0 -= 1 - (x0 & 1)
+        y0 -= 1 - (y0 & 1)
         d1, d2 = 1 + r.below(40), 1 + r.below(40)
         x4 = (-d1 * pow(y0, -1, 1 << 52)) & M52
         y4 = (-d2 * pow(x0, -1, 1 << 52)) & M52
